@@ -65,12 +65,17 @@ IsLast(q, h) == Cardinality(HandlesOn(q, q.hs[h])) = 1
 
 Restrict(f, S) == [x \in S |-> f[x]]
 
-DoDropRecv(q, h) ==
+(* first half of removing a receiver handle: the handle goes away and, when it was the last one of
+   its stream, the stream stops limiting senders *)
+DoDropRecvStream(q, h) ==
   LET s    == q.hs[h]
       hs2  == Restrict(q.hs, DOMAIN q.hs \ {h})
       gone == \A g \in DOMAIN hs2 : hs2[g] # s
       cur2 == IF gone THEN Restrict(q.cur, DOMAIN q.cur \ {s}) ELSE q.cur
-  IN [q EXCEPT !.hs = hs2, !.cur = cur2, !.noR = (@ \/ DOMAIN cur2 = {})]
+  IN [q EXCEPT !.hs = hs2, !.cur = cur2]
+(* second half: with no stream left, senders are told that nobody listens (sticky) *)
+MarkNoReaders(q) == [q EXCEPT !.noR = (@ \/ DOMAIN q.cur = {})]
+DoDropRecv(q, h) == MarkNoReaders(DoDropRecvStream(q, h))
 
 DoDropSend(q, h) == [q EXCEPT !.snd = @ \ {h}]
 
